@@ -175,12 +175,12 @@ def _m_strip(ex, st, args, kwargs, node):
 
 
 def _px_view():
-    """Call-site view of `_odf_length_to_px`: result == PX(argument) -- what any deterministic function satisfies.  The 96-dpi contract of
-    the function itself is verified on its body by C14.odf_length; this view neither uses nor weakens it."""
+    """Call-site view of `_odf_length_to_px`: None for a None argument (a consequence of the contract verified on the body by C14.odf_length),
+    result == PX(argument) for a str -- what any deterministic function satisfies.  The view does not weaken the verified contract."""
     def returns(c):
         a = c.args["length"]
         if isinstance(a, VNoneT):
-            n, s = z3.BoolVal(True), z3.StringVal("")
+            return NONE           # implied by the contract verified on the body (C14.odf_length, parameter `str | None`): no length -> None
         elif isinstance(a, VStr):
             n, s = z3.BoolVal(False), a.t
         else:
@@ -213,9 +213,7 @@ def _size(sch, cls, f, me):
     if k in ("str", ("opt", "str")):
         n = fld(cls, f + ".is_none", B)(me) if k != "str" else z3.BoolVal(False)
         s = fld(cls, f, S)(me)
-        # at a None argument the executor passes (True, ""):
-        return (z3.If(n, PX_NONE(z3.BoolVal(True), z3.StringVal("")), PX_NONE(z3.BoolVal(False), s)),
-                z3.If(n, PX(z3.BoolVal(True), z3.StringVal("")), PX(z3.BoolVal(False), s)))
+        return z3.Or(n, PX_NONE(z3.BoolVal(False), s)), PX(z3.BoolVal(False), s)      # nothing stored -> nothing reported
     return None
 
 
